@@ -27,6 +27,14 @@ def check(rep, ctx):
     R_W = rep.rule("C07-w-capability", "the caller's sink is only written to (or passed on)", floor=18)
     R_B = rep.rule("C07-w-bytes", "every write passes an immutable bytes value; the result of write() is unused", floor=18)
     R_L = rep.rule("C07-w-staging", "scratch buffers are local to the writing call", floor=2)
+    R_OV = rep.rule("C07-r-no-over-read", "no read asks the caller's stream for the larger of what is needed and something else (read(max(...)))", floor=0,
+                   necessary_because="skipping an unknown tagged field with read(max(remaining, 4096)) swallows up to 4 KiB of what follows it")
+    from .. import scan as _scan
+    for o in _scan.over_reads(ctx, ["kio.serial.readers", "kio.serial._parse", "kio.records.readers"]):
+        rep.check(R_OV, False, construct=o["function"], stmt=o["stmt"],
+                  message=f"`{o['stmt']}` requests {o['size']} bytes: more than the item holds whenever the other operand is larger -- the bytes of "
+                          f"the next field, element or message are consumed and discarded", file=o["file"], line=o["line"])
+    rep.count(R_OV, 1, instance="scan")
     R_R = rep.rule("C07-r-capability", "the caller's source is only read sequentially with explicit sizes", floor=19)
     for d, kind, skind, site, detail, n in eng["effects"]:
         if not site.startswith("kio.serial"):
